@@ -14,6 +14,7 @@ def main(tier, seed, replay):
     if tier == "quick":
         k.model_check("MC_Event", ev_consts(stypes=("SOrd", "SMap"), emits=2), inv, module=M)
         k.must_find("MC_Event_NoQueue", ev_consts(impl="ImplNoQueue"), ["Inv_C04"], module=M)
+        k.model_check("MC_Event_mapped_trigger", ev_consts(stypes=("SMTrig",), emits=2), inv, module=M)
         tr = k.validate_profile("events", 120)
         k.validate_profile("events_custom", 60)
     else:
@@ -21,6 +22,7 @@ def main(tier, seed, replay):
         k.model_check("MC_Event_late", ev_consts(stypes=("SOrd", "SMap"), emits=2, ticks=2, idle=1, init=()), inv, module=M, timeout=3000)
         k.model_check("MC_Event_modes", ev_consts(stypes=("SOrd",), modes=("all", "direct", "except"), emits=3, ticks=2), inv, module=M, timeout=3000)
         k.model_check("MC_Event_unreliable", ev_consts(stypes=("SUnr",), emits=2, ticks=2, cframes=3), inv, module=M, timeout=3000)
+        k.model_check("MC_Event_mapped_trigger", ev_consts(stypes=("SMTrig", "SMap"), ents=("e1", "e2"), emits=2, ticks=2, ops=2, cframes=2), inv, module=M, timeout=3000)
         k.must_find("MC_Event_unreliable_NoQueue", ev_consts(impl="ImplNoQueue", stypes=("SUnr",)), ["Inv_C04"], module=M)
         k.must_find("MC_Event_NoQueue", ev_consts(impl="ImplNoQueue"), ["Inv_C04"], module=M)
         tr = k.validate_profile("events", 2500)
@@ -28,4 +30,5 @@ def main(tier, seed, replay):
     k.selftest(tr)
     return k.finish(assumptions=[
         "deliveries are observed by reader systems / observers inside the client apps together with ServerUpdateTick and the entity map at that moment",
+        "event kinds: plain, independent, mapped (entity in the payload), trigger with a target, mapped trigger (target and a payload entity, the latter always slot e1), unreliable",
         "each event type travels on its own channel (ordered reliable ones, and an unreliable one with loss and reordering for SUnr / CUnr); the update channel and every event channel are delayed independently"])
